@@ -14,6 +14,7 @@ package main
 
 import (
 	"fmt"
+	"go/token"
 	"go/types"
 	"sort"
 	"strings"
@@ -142,6 +143,73 @@ func checkNilInt(w *World, r *Report, tm *Terms) {
 				r.Check(present, "NIL-INT", fmt.Sprintf("%s:lookup:%s-keyed:%s", fnName(fn), strings.Join(ts, "/"), used), w.instrPos(in),
 					fmt.Sprintf("the math.Int read from %s and handed to %s is read under a key that is present (%s)", shorten(m.String()), used, how),
 					fmt.Sprintf("the key %s is not provably a key of the map (filled under the Bidder of %s records): for an absent key the value is the zero math.Int and %s dereferences a nil *big.Int — a panic inside block processing halts the chain (e.g. a bid whose bidder has no allow-list entry, as a genesis file may contain)", k.String(), strings.Join(ts, "/"), used))
+			}
+		}
+	}
+	// comma-ok reads: the value of an absent entry is the zero math.Int as well; where the value is handed to a call it
+	// has either been replaced on the "absent" branch (a phi joins it with another value) or the use is reached only
+	// through the "present" branch
+	for _, fn := range sortedFns(tree) {
+		if p := pkgOf(fn); p == nil || !w.isRepoPkg(p) || p.Path() == simPath || w.isGenerated(fn) {
+			continue
+		}
+		for _, b := range fn.Blocks {
+			for _, in := range b.Instrs {
+				lk, ok := in.(*ssa.Lookup)
+				if !ok || !lk.CommaOk {
+					continue
+				}
+				mt, ok := lk.X.Type().Underlying().(*types.Map)
+				if !ok || !isNamed(mt.Elem(), mathPath, "Int") {
+					continue
+				}
+				var val, okv *ssa.Extract
+				if refs := lk.Referrers(); refs != nil {
+					for _, u := range *refs {
+						if ex, isEx := u.(*ssa.Extract); isEx {
+							if ex.Index == 0 {
+								val = ex
+							} else {
+								okv = ex
+							}
+						}
+					}
+				}
+				if val == nil || val.Referrers() == nil {
+					continue
+				}
+				// the block reached when the entry is present
+				var present *ssa.BasicBlock
+				if okv != nil && okv.Referrers() != nil {
+					for _, u := range *okv.Referrers() {
+						if iff, isIf := u.(*ssa.If); isIf && iff.Cond == ssa.Value(okv) {
+							present = iff.Block().Succs[0]
+						}
+						if un, isUn := u.(*ssa.UnOp); isUn && un.Op == token.NOT && un.Referrers() != nil {
+							for _, u2 := range *un.Referrers() {
+								if iff, isIf := u2.(*ssa.If); isIf {
+									present = iff.Block().Succs[1]
+								}
+							}
+						}
+					}
+				}
+				var bad []string
+				for _, u := range *val.Referrers() {
+					c, isCall := u.(ssa.CallInstruction)
+					if !isCall {
+						continue // a phi (joined with a replacement), a store, a map update: not a dereference
+					}
+					if present != nil && len(present.Preds) == 1 && (present == c.Block() || present.Dominates(c.Block())) {
+						continue
+					}
+					bad = append(bad, shorten(callKey(c.Common()))+" at "+w.instrPos(c))
+				}
+				n++
+				sort.Strings(bad)
+				r.Check(len(bad) == 0, "NIL-INT", fmt.Sprintf("%s:comma-ok:%s", fnName(fn), shortKey(uncell(tm.Of(tm.Root(fn), lk.Index)))), w.instrPos(in),
+					"the math.Int of a comma-ok map read is used only where the entry is present, or after the absent case was given a value",
+					"the value of the comma-ok read is handed to "+strings.Join(dedupe(bad), ", ")+" also when the entry is absent: it is then the zero math.Int, whose nil *big.Int panics inside block processing")
 			}
 		}
 	}
